@@ -49,7 +49,7 @@ type DataChannel struct {
 	// binaryType                 string
 
 	onMessageHandler    func(DataChannelMessage)
-	openHandlerOnce     sync.Once
+	openHandlerOnce     *sync.Once
 	onOpenHandler       func()
 	dialHandlerOnce     sync.Once
 	onDialHandler       func()
@@ -217,13 +217,17 @@ func (d *DataChannel) checkDetachAfterOpen() {
 // the underlying data transport has been established (or re-established).
 func (d *DataChannel) OnOpen(f func()) {
 	d.mu.Lock()
-	d.openHandlerOnce = sync.Once{}
+	// A new Once per registration: an invocation of the previous handler that is
+	// still in flight keeps its own (resetting a Once in place while its Do runs
+	// is a fatal error in the runtime).
+	once := &sync.Once{}
+	d.openHandlerOnce = once
 	d.onOpenHandler = f
 	d.mu.Unlock()
 
 	if d.ReadyState() == DataChannelStateOpen {
 		// If the data channel is already open, call the handler immediately.
-		go d.openHandlerOnce.Do(func() {
+		go once.Do(func() {
 			f()
 			d.checkDetachAfterOpen()
 		})
@@ -233,6 +237,7 @@ func (d *DataChannel) OnOpen(f func()) {
 func (d *DataChannel) onOpen() {
 	d.mu.RLock()
 	handler := d.onOpenHandler
+	once := d.openHandlerOnce
 	if d.isGracefulClosed {
 		d.mu.RUnlock()
 
@@ -240,8 +245,8 @@ func (d *DataChannel) onOpen() {
 	}
 	d.mu.RUnlock()
 
-	if handler != nil {
-		go d.openHandlerOnce.Do(func() {
+	if handler != nil && once != nil {
+		go once.Do(func() {
 			handler()
 			d.checkDetachAfterOpen()
 		})
